@@ -457,9 +457,55 @@ def dataset_level(ctx, reqs, pend, n_sets):
 
 
 # ----- entry points -----------------------------------------------------------------------------------------------------------
+def shared_lattice_and_reuse(ctx, n_lattices):
+    """(1) several targeted / solved mazes on ONE lattice with different endpoints, tokenized one after the other by the same and by
+    fresh tokenizers (anything memoised per lattice value would hand the second maze the first one's endpoints);
+    (2) a long-lived legacy tokenizer whose mode is reassigned (no clear_cache) must tokenize like a fresh tokenizer of the new mode."""
+    mt, LM, TLM, SM, G, MazeTokenizer, TokenizationMode, MTM = _imports()
+    for _ in range(n_lattices):
+        n = ctx.rng.randint(2, 5)
+        base = _gen_base(ctx, n)
+        cells = [(i, j) for i in range(n) for j in range(n)]
+        group = []
+        for _k in range(3):
+            s, e = ctx.rng.choice(cells), ctx.rng.choice(cells)
+            group.append(TLM(connection_list=base.connection_list, start_pos=np.array(s), end_pos=np.array(e)))
+            try:
+                group.append(SM.from_lattice_maze(base, base.find_shortest_path(s, e)))
+            except ValueError:
+                pass
+        for fl in ("legacy", "enum", "modular"):
+            mode = ctx.rng.choice(MODES)
+            for mz in group:
+                check_maze(ctx, mz, fl, mode)
+                ctx.count("stream=shared-lattice")
+                if ctx.violations: return
+    # (2)
+    for _ in range(max(2, n_lattices // 3)):
+        a, b = ctx.rng.sample(MODES, 2)
+        tok = MazeTokenizer(tokenization_mode=TokenizationMode[a], max_grid_size=None)
+        mz = _make(ctx, ctx.rng.choice(["targeted", "solved"]), ctx.rng.randint(2, 5))
+        try:
+            mz.as_tokens(tok)
+            tok.tokenization_mode = TokenizationMode[b]
+            got = list(mz.as_tokens(tok))
+            want = list(mz.as_tokens(MazeTokenizer(tokenization_mode=TokenizationMode[b], max_grid_size=None)))
+            mod = list(mz.as_tokens(MTM.from_legacy(tok)))
+        except Exception as e:  # noqa: BLE001
+            ctx.notes.append(f"mode reassignment probe not applicable: {type(e).__name__}"); break
+        ctt = b == "AOTP_CTT_indexed"
+        ctx.case(dict(reassign=[a, b], maze=maze_json(mz)), nontrivial=True); ctx.count("stream=mode-reassigned")
+        if canon_tokens(got, ctt) != canon_tokens(want, ctt) or canon_tokens(got, ctt) != canon_tokens(mod, ctt):
+            ctx.violate(f"a legacy tokenizer used in mode {a} and then switched to {b} emits tokens that differ (beyond adjacency order) from a fresh {b} tokenizer / "
+                        f"from its declared modular equivalent: {got[-10:]} vs {want[-10:]}", dict(maze=maze_json(mz), flavour="legacy", mode=b, reassigned_from=a, tokens=got))
+            return
+
+
 def run(ctx):
     warnings.filterwarnings("ignore")
     _seed(ctx)
+    shared_lattice_and_reuse(ctx, 10 if ctx.quick else 150)
+    if ctx.violations: return
     per = 40 if ctx.quick else 800
     reqs, pend = [], []
     plan = [(fl, mode, kind) for fl in FLAVOURS for mode in MODES for kind in ("lattice", "targeted", "solved")]
@@ -499,6 +545,8 @@ def search(ctx):
     """oracle-only exploration of the real code (no driver): stops at the first violation"""
     warnings.filterwarnings("ignore")
     _seed(ctx, salt=7)
+    shared_lattice_and_reuse(ctx, 60)
+    if ctx.violations: return
     budget = 400 if ctx.quick else 8000
     # smallest first: all flavours/modes/kinds on sizes 2,3,4, then random sizes
     for n in (2, 3, 4):
